@@ -299,9 +299,6 @@ Proof.
   - exists [13]%N. split; [repeat constructor|reflexivity].
 Qed.
 
-(* after destructing a result: only the Ok and the Fail case remain *)
-Ltac pf H := cbn [post postc] in H; [ | | exact H | exact H ].
-
 Section Bound.
   Variable E : env.
   Hypothesis HE : env_ok E.
@@ -348,7 +345,7 @@ Section Bound.
     pose proof Hpre as (Hc & Hst & Hi).
     pose proof (ron_post (good_node I) gs pos (notrack (P inh e pos)) st Hst
                   (notrack_post _ gs pos _ st Hst (HP inh e pos st gs Hl Hpre))) as Hr.
-    destruct (ron E (notrack (P inh e pos)) st) as [[p t] st'|st'| |]; pf Hr.
+    destruct (ron E (notrack (P inh e pos)) st) as [[p t] st'|st'| |]; cbn [post postc] in Hr; [ | |exact Hr|exact Hr].
     - destruct Hr as (Hle & Hp & Ht & Hst' & Hi').
       apply (post_mono I _ gs pos p); [exact Hle|].
       apply IH; [exact Hl|exact (mk_pre I p st' gs Hp Hst' Hi')|constructor; assumption].
@@ -378,7 +375,7 @@ Section Bound.
     { intros l Hl. destruct Hpre as (Hc & Hst & Hi). apply post_ok; try assumption; lia. }
     destruct b; [destruct doit|].
     - pose proof (skip_post pos st gs Hpre) as Hr.
-      destruct (skip_p E P lf pos st) as [[p t] st'|st'| |]; pf Hr.
+      destruct (skip_p E P lf pos st) as [[p t] st'|st'| |]; cbn [post postc] in Hr; [ | |exact Hr|exact Hr].
       + destruct Hr as (H1 & H2 & H3 & H4 & H5). apply post_ok; try assumption.
         constructor; [exact H3|constructor].
       + apply post_fail; apply Hr.
@@ -396,10 +393,10 @@ Section Bound.
       unfold good_node. cbn [node_spans]. apply good_items_spans. apply Forall_rev. exact Hacc.
     - inversion Hl as [|? ? Hle Hles]; subst.
       pose proof (pre_skip_post b (negb first) pos st gs Hpre) as Hr.
-      destruct (pre_skip_p E P lf b (negb first) pos st) as [[p1 sk] st1|st1| |]; pf Hr.
+      destruct (pre_skip_p E P lf b (negb first) pos st) as [[p1 sk] st1|st1| |]; cbn [post postc] in Hr; [ | |exact Hr|exact Hr].
       + destruct Hr as (Hle1 & Hp1 & Hsk & Hst1 & Hi1).
         pose proof (HP inh e p1 st1 gs Hle (mk_pre I p1 st1 gs Hp1 Hst1 Hi1)) as Hr2.
-        destruct (P inh e p1 st1) as [[p2 t] st2|st2| |]; pf Hr2.
+        destruct (P inh e p1 st1) as [[p2 t] st2|st2| |]; cbn [post postc] in Hr2; [ | |exact Hr2|exact Hr2].
         * destruct Hr2 as (Hle2 & Hp2 & Ht & Hst2 & Hi2).
           apply (post_mono I _ gs pos p2); [lia|].
           apply IH; [exact Hles|exact (mk_pre I p2 st2 gs Hp2 Hst2 Hi2)|].
@@ -417,7 +414,7 @@ Section Bound.
     - apply post_fail; assumption.
     - inversion Hl as [|? ? Hle Hles]; subst.
       pose proof (ron_post (good_node I) gs pos (P inh e pos) st Hst (HP inh e pos st gs Hle Hpre)) as Hr.
-      destruct (ron E (P inh e pos) st) as [[p t] st'|st'| |]; pf Hr.
+      destruct (ron E (P inh e pos) st) as [[p t] st'|st'| |]; cbn [post postc] in Hr; [ | |exact Hr|exact Hr].
       + destruct Hr as (H1 & H2 & H3 & H4 & H5). apply post_ok; assumption.
       + destruct Hr as (H4 & H5). apply IH; [exact Hles|exact (mk_pre I pos st' gs Hc H4 H5)].
   Qed.
@@ -428,10 +425,10 @@ Section Bound.
   Proof.
     intros Hl Hpre. unfold unit_p.
     pose proof (pre_skip_post b (negb (i =? 0)) pos st gs Hpre) as Hr.
-    destruct (pre_skip_p E P lf b (negb (i =? 0)) pos st) as [[p1 sk] st1|st1| |]; pf Hr.
+    destruct (pre_skip_p E P lf b (negb (i =? 0)) pos st) as [[p1 sk] st1|st1| |]; cbn [post postc] in Hr; [ | |exact Hr|exact Hr].
     - destruct Hr as (Hle1 & Hp1 & Hsk & Hst1 & Hi1).
       pose proof (HP inh e p1 st1 gs Hl (mk_pre I p1 st1 gs Hp1 Hst1 Hi1)) as Hr2.
-      destruct (P inh e p1 st1) as [[p2 t] st2|st2| |]; pf Hr2.
+      destruct (P inh e p1 st1) as [[p2 t] st2|st2| |]; cbn [post postc] in Hr2; [ | |exact Hr2|exact Hr2].
       + destruct Hr2 as (Hle2 & Hp2 & Ht & Hst2 & Hi2).
         apply post_ok; try assumption; try lia. split; assumption.
       + apply post_fail; apply Hr2.
@@ -455,7 +452,7 @@ Section Bound.
       + pose proof Hpre as (Hc & Hst & Hi).
         pose proof (ron_post (good_item I) gs pos (unit_p E P lf b inh e i pos) st Hst
                       (unit_post b inh e i pos st gs Hl Hpre)) as Hr.
-        destruct (ron E (unit_p E P lf b inh e i pos) st) as [[p it] st'|st'| |]; pf Hr.
+        destruct (ron E (unit_p E P lf b inh e i pos) st) as [[p it] st'|st'| |]; cbn [post postc] in Hr; [ | |exact Hr|exact Hr].
         * destruct Hr as (H1 & H2 & H3 & H4 & H5).
           apply (post_mono I _ gs pos p); [exact H1|].
           apply IH; [exact Hl|exact (mk_pre I p st' gs H2 H4 H5)|constructor; assumption].
@@ -473,7 +470,7 @@ Section Bound.
     - destruct Hpre as (Hc & Hst & Hi). apply post_ok; try assumption; try lia.
       unfold good_node. cbn [node_spans]. apply good_nodes_spans. apply Forall_rev. exact Hacc.
     - pose proof (HP inh e pos st gs Hl Hpre) as Hr.
-      destruct (P inh e pos st) as [[p t] st'|st'| |]; pf Hr.
+      destruct (P inh e pos st) as [[p t] st'|st'| |]; cbn [post postc] in Hr; [ | |exact Hr|exact Hr].
       + destruct Hr as (H1 & H2 & H3 & H4 & H5).
         apply (post_mono I _ gs pos p); [exact H1|].
         apply IH; [exact Hl|exact (mk_pre I p st' gs H2 H4 H5)|constructor; assumption].
@@ -524,7 +521,7 @@ Section Bound.
   Qed.
 
   (* the common tail `start.span(end)` then return a node carrying (pos, pos') *)
-  Lemma span_tail gs pos pos' st (t : tnode) st' :
+  Lemma span_tail gs pos pos' (t : tnode) st' :
     good_cur I pos -> good_cur I pos' -> pos <= pos' ->
     good_node I t -> good_state I st' -> SInv (stk st') gs ->
     post I (good_node I) gs pos (lift (i_span I pos pos') (fun _ => Ok (pos', t) st')).
@@ -597,7 +594,7 @@ Section Bound.
       apply choice_post; [apply lits_ok_list; exact Hl|exact Hpre].
     - (* TOpt *)
       pose proof (ron_post (good_node I) gs pos (P inh e pos) st Hst (HP inh e pos st gs Hl Hpre)) as Hr.
-      destruct (ron E (P inh e pos) st) as [[p t] st'|st'| |]; pf Hr.
+      destruct (ron E (P inh e pos) st) as [[p t] st'|st'| |]; cbn [post postc] in Hr; [ | |exact Hr|exact Hr].
       + destruct Hr as (H1 & H2 & H3 & H4 & H5). apply Hok; assumption.
       + destruct Hr as (H4 & H5). apply Hok; try assumption; try lia. apply good_node_leaf. reflexivity.
     - (* TRep *)
@@ -610,7 +607,7 @@ Section Bound.
       { split; [exact Hc|]. split; [|apply sinv_snapshot; exact Hi].
         split; [apply Hst|]. cbn [st1 with_stk ev tr]. constructor; [exact Logic.I|apply Hst]. }
       pose proof (HP inh e pos st1 _ Hl Hpre1) as Hr.
-      destruct (P inh e pos st1) as [[p t] st'|st'| |]; pf Hr.
+      destruct (P inh e pos st1) as [[p t] st'|st'| |]; cbn [post postc] in Hr; [ | |exact Hr|exact Hr].
       + destruct Hr as (H1 & H2 & H3 & H4 & H5).
         destruct (sinv_restore _ _ _ H5) as (s' & Hrs & _ & His). rewrite Hrs. cbn [lift].
         apply Hok; try assumption; try lia.
@@ -627,7 +624,7 @@ Section Bound.
       { split; [exact Hc|]. split; [|apply sinv_snapshot; exact Hi].
         split; [apply Hst|]. cbn [st1 with_stk ev tr]. constructor; [exact Logic.I|apply Hst]. }
       pose proof (HC inh e pos st1 _ Hl Hpre1) as Hr.
-      destruct (C inh e pos st1) as [p st'|st'| |]; pf Hr.
+      destruct (C inh e pos st1) as [p st'|st'| |]; cbn [post postc] in Hr; [ | |exact Hr|exact Hr].
       + destruct Hr as (H1 & H2 & H4 & H5).
         destruct (sinv_restore _ _ _ H5) as (s' & Hrs & _ & His). rewrite Hrs. cbn [lift].
         apply Hfail; [|exact His].
@@ -640,7 +637,7 @@ Section Bound.
         eapply good_restore; [apply H4|exact Hrs].
     - (* TPush *)
       pose proof (HP inh e pos st gs Hl Hpre) as Hr.
-      destruct (P inh e pos st) as [[p t] st'|st'| |]; pf Hr.
+      destruct (P inh e pos st) as [[p t] st'|st'| |]; cbn [post postc] in Hr; [ | |exact Hr|exact Hr].
       + destruct Hr as (H1 & H2 & H3 & H4 & H5).
         rewrite (i_span_good I pos p HI Hc H2 H1). cbn [lift].
         apply Hok; try assumption.
@@ -709,10 +706,10 @@ Section Bound.
     - (* TPair *)
       unfold lits_ok in Hl. cbn [str_lits] in Hl. apply Forall_app in Hl. destruct Hl as [Hl1 Hl2].
       pose proof (HP inh e1 pos st gs Hl1 Hpre) as Hr.
-      destruct (P inh e1 pos st) as [[p1 t1] st1|st1| |]; pf Hr.
+      destruct (P inh e1 pos st) as [[p1 t1] st1|st1| |]; cbn [post postc] in Hr; [ | |exact Hr|exact Hr].
       + destruct Hr as (H1 & H2 & H3 & H4 & H5).
         pose proof (HP inh e2 p1 st1 gs Hl2 (mk_pre I p1 st1 gs H2 H4 H5)) as Hr2.
-        destruct (P inh e2 p1 st1) as [[p2 t2] st2|st2| |]; pf Hr2.
+        destruct (P inh e2 p1 st1) as [[p2 t2] st2|st2| |]; cbn [post postc] in Hr2; [ | |exact Hr2|exact Hr2].
         * destruct Hr2 as (G1 & G2 & G3 & G4 & G5). apply Hok; try assumption; try lia.
           unfold good_node. cbn [node_spans]. apply Forall_app. split; assumption.
         * apply Hfail; apply Hr2.
@@ -728,7 +725,7 @@ Section Bound.
       destruct (r_emis (e_rules E r)).
       + (* span-only *)
         pose proof (HC (resolve arg inh) (r_body (e_rules E r)) pos _ gs Hrules Hpre1) as Hr.
-        destruct (C (resolve arg inh) (r_body (e_rules E r)) pos (ev (EEnter r pos) st)) as [p st'|st'| |]; pf Hr.
+        destruct (C (resolve arg inh) (r_body (e_rules E r)) pos (ev (EEnter r pos) st)) as [p st'|st'| |]; cbn [post postc] in Hr; [ | |exact Hr|exact Hr].
         * destruct Hr as (H1 & H2 & H4 & H5).
           rewrite (i_span_good I pos p HI Hc H2 H1). cbn [lift].
           apply Hok; try assumption.
@@ -737,13 +734,13 @@ Section Bound.
         * destruct Hr as (H4 & H5). apply Hfail; [|exact H5]. apply good_state_ev; [exact Hc|exact H4].
       + (* expression only *)
         pose proof (HP (resolve arg inh) (r_body (e_rules E r)) pos st gs Hrules Hpre) as Hr.
-        destruct (P (resolve arg inh) (r_body (e_rules E r)) pos st) as [[p t] st'|st'| |]; pf Hr.
+        destruct (P (resolve arg inh) (r_body (e_rules E r)) pos st) as [[p t] st'|st'| |]; cbn [post postc] in Hr; [ | |exact Hr|exact Hr].
         * destruct Hr as (H1 & H2 & H3 & H4 & H5). apply Hok; try assumption.
           unfold good_node. cbn [node_spans]. rewrite app_nil_r. exact H3.
         * apply Hfail; apply Hr.
       + (* both *)
         pose proof (HP (resolve arg inh) (r_body (e_rules E r)) pos _ gs Hrules Hpre1) as Hr.
-        destruct (P (resolve arg inh) (r_body (e_rules E r)) pos (ev (EEnter r pos) st)) as [[p t] st'|st'| |]; pf Hr.
+        destruct (P (resolve arg inh) (r_body (e_rules E r)) pos (ev (EEnter r pos) st)) as [[p t] st'|st'| |]; cbn [post postc] in Hr; [ | |exact Hr|exact Hr].
         * destruct Hr as (H1 & H2 & H3 & H4 & H5).
           rewrite (i_span_good I pos p HI Hc H2 H1). cbn [lift].
           apply Hok; try assumption.
@@ -816,8 +813,9 @@ Qed.
 Lemma top_skip_p_good E fuel pos st gs : env_ok E -> pre (e_inp E) pos st gs ->
   post (e_inp E) (good_node (e_inp E)) gs pos (top_skip_p E fuel pos st).
 Proof.
-  intros HE Hpre. unfold top_skip_p. apply (skip_post E HE (tparse E fuel)); [|exact Hpre].
-  intros inh e p s g Hl Hp. apply tparse_boundaries; assumption.
+  intros HE Hpre. unfold top_skip_p. apply (skip_post E HE (tparse E fuel) (tcheck E fuel)); [| |exact Hpre].
+  - intros inh e p s g Hl Hp. apply tparse_boundaries; assumption.
+  - intros inh e p s g Hl Hp. apply tcheck_boundaries; assumption.
 Qed.
 
 Theorem try_parse_good E fuel r : env_ok E ->
@@ -879,3 +877,120 @@ Proof.
   intros HI Ht sp Hin. unfold good_node in Ht. rewrite Forall_forall in Ht.
   apply span_str_good; [exact HI|apply Ht; exact Hin].
 Qed.
+
+(* ---- the statements of Properties/C09.v, with [pre] / [post] spelled out -------------------- *)
+
+Lemma c09_tparse : forall E, env_ok E -> forall fuel inh e pos st gs,
+  lits_ok e -> good_cur (e_inp E) pos -> good_state (e_inp E) st -> SInv (stk st) gs ->
+  match tparse E fuel inh e pos st with
+  | Ok (pos', t) st' =>
+      pos <= pos' /\ good_cur (e_inp E) pos' /\ good_node (e_inp E) t /\
+      good_state (e_inp E) st' /\ SInv (stk st') gs
+  | Fail st' => good_state (e_inp E) st' /\ SInv (stk st') gs
+  | Panic => False
+  | Fuel => True
+  end.
+Proof.
+  intros E HE fuel inh e pos st gs Hl Hc Hst Hi.
+  exact (tparse_boundaries E HE fuel inh e pos st gs Hl (mk_pre _ pos st gs Hc Hst Hi)).
+Qed.
+
+Lemma c09_tcheck : forall E, env_ok E -> forall fuel inh e pos st gs,
+  lits_ok e -> good_cur (e_inp E) pos -> good_state (e_inp E) st -> SInv (stk st) gs ->
+  match tcheck E fuel inh e pos st with
+  | Ok pos' st' => pos <= pos' /\ good_cur (e_inp E) pos' /\ good_state (e_inp E) st' /\ SInv (stk st') gs
+  | Fail st' => good_state (e_inp E) st' /\ SInv (stk st') gs
+  | Panic => False
+  | Fuel => True
+  end.
+Proof.
+  intros E HE fuel inh e pos st gs Hl Hc Hst Hi.
+  exact (tcheck_boundaries E HE fuel inh e pos st gs Hl (mk_pre _ pos st gs Hc Hst Hi)).
+Qed.
+
+Lemma c09_entry_points : forall E fuel r, env_ok E ->
+  match try_parse_partial E fuel r with
+  | Ok (pos', t) st' =>
+      i_start (e_inp E) <= pos' /\ good_cur (e_inp E) pos' /\ good_node (e_inp E) t /\ good_state (e_inp E) st'
+  | Fail st' => good_state (e_inp E) st'
+  | Panic => False
+  | Fuel => True
+  end /\
+  match try_check_partial E fuel r with
+  | Ok pos' st' => i_start (e_inp E) <= pos' /\ good_cur (e_inp E) pos' /\ good_state (e_inp E) st'
+  | Fail st' => good_state (e_inp E) st'
+  | Panic => False
+  | Fuel => True
+  end /\
+  match try_parse E fuel r with
+  | Ok t st' => good_node (e_inp E) t /\ good_state (e_inp E) st'
+  | Fail st' => good_state (e_inp E) st'
+  | Panic => False
+  | Fuel => True
+  end /\
+  match try_check E fuel r with
+  | Ok _ st' => good_state (e_inp E) st'
+  | Fail st' => good_state (e_inp E) st'
+  | Panic => False
+  | Fuel => True
+  end.
+Proof.
+  intros E fuel r HE.
+  pose proof (try_parse_partial_good E fuel r HE) as H1.
+  pose proof (try_check_partial_good E fuel r HE) as H2.
+  pose proof (try_parse_good E fuel r HE) as H3.
+  pose proof (try_check_good E fuel r HE) as H4.
+  repeat split.
+  - destruct (try_parse_partial E fuel r) as [[p t] s|s| |]; cbn [post] in H1; tauto.
+  - destruct (try_check_partial E fuel r) as [p s|s| |]; cbn [postc] in H2; tauto.
+  - destruct (try_parse E fuel r) as [t s|s| |]; cbn [post_entry] in H3; tauto.
+  - destruct (try_check E fuel r) as [t s|s| |]; cbn [post_entry] in H4; tauto.
+Qed.
+
+(* ---- non-vacuity ---------------------------------------------------------------------------- *)
+
+(* "aé€é😀" : 1-, 2-, 3-, 2- and 4-byte characters; the rule matches
+   "a" ~ PUSH(ANY) ~ '\u{1f40}'..'\u{2328}' ~ PEEK ~ skip 1 char ~ EOI *)
+Definition ex_cs : list char := [97; 233; 8364; 233; 128512]%N.
+Definition ex_body : texpr :=
+  TSeq SkOff [TStr (encode [97%N]); TPush TAny; TRange 8000%N 9000%N; TPeek; TSkipChars 1; TEoi].
+Definition ex_body2 : texpr := TSeq SkOff [TPush TAny; TRange 8000%N 9000%N; TPeek; TEoi].
+Definition ex_env (I : inp) (body : texpr) : env :=
+  mk_env I (fun _ => mk_rdef (Some false) EmBoth body) SkipEmpty (fun _ _ => false) 99%N true true true.
+
+Lemma ex_cs_valid : valid_str ex_cs.
+Proof. repeat constructor. Qed.
+
+Example ex_env_ok : env_ok (ex_env (inp_of_str (encode ex_cs)) ex_body).
+Proof.
+  split; [apply good_inp_str; exact ex_cs_valid|]. repeat split.
+  intros r. cbn. constructor; [|constructor]. exists [97%N]. split; [repeat constructor|reflexivity].
+Qed.
+
+Example ex_runs :
+  exists t st, try_parse (ex_env (inp_of_str (encode ex_cs)) ex_body) 20 0%N = Ok t st /\
+               node_spans t = [(6, 8); (8, 12); (0, 12)] /\ cache (stk st) = [(1, 3)].
+Proof. vm_compute. eexists _, _. repeat split. Qed.
+
+(* the same characters seen through a SubInput2 that starts after "a" and ends before the emoji *)
+Example ex_sub_ok : env_ok (ex_env (inp_of_span (encode ex_cs) 1 8) ex_body2).
+Proof.
+  split.
+  - split; [exists ex_cs; split; [exact ex_cs_valid|reflexivity]|]. vm_compute. repeat split; lia.
+  - repeat split. intros r. constructor.
+Qed.
+
+Example ex_sub_runs :
+  exists t st, try_parse (ex_env (inp_of_span (encode ex_cs) 1 8) ex_body2) 20 0%N = Ok t st /\
+               node_spans t = [(6, 8); (1, 8)].
+Proof. vm_compute. eexists _, _. repeat split. Qed.
+
+(* the hypotheses are needed: an input cut inside a character, or a string needle that is not valid
+   UTF-8, do make the model panic *)
+Example ex_bad_input_panics :
+  tparse (ex_env (inp_of_span (encode [8364%N]) 0 1) TAny) 5 true TAny 0 st0 = Panic.
+Proof. reflexivity. Qed.
+
+Example ex_bad_needle_panics :
+  tparse (ex_env (inp_of_str (encode [233%N])) TAny) 5 true (TSeq SkOff [TStr [195%N]; TAny]) 0 st0 = Panic.
+Proof. reflexivity. Qed.
